@@ -168,7 +168,8 @@ class Kind:
                 t = threading.Thread(target=app_request, args=(app, REALM, 10, res, f"o;{i}"))
                 t.start()
                 end = time.time() + 5
-                while time.time() < end and not ("exc" in res or ("msg" in res and res["msg"].header.hop_by_hop_identifier)):
+                while time.time() < end and not ("exc" in res or ("msg" in res and (
+                        res["msg"].header.hop_by_hop_identifier, res["msg"].header.end_to_end_identifier) in h.queued_ids)):
                     time.sleep(0.0003)
                 h.settle()
                 sp.drain()
